@@ -897,14 +897,25 @@ fn dlt_message_intern<'a>(
             ParsedMessage::FilteredOut(payload_length as usize),
         ));
     }
-    let (i, payload) = if header.endianness == Endianness::Big {
-        dlt_payload::<BigEndian>(after_headers, verbose, payload_length, arg_count, msg_type)?
+    // the payload is exactly the declared number of bytes: nothing behind it belongs to this message
+    let (after_message, payload_input) = take(payload_length)(after_headers)?;
+    let payload_res = if header.endianness == Endianness::Big {
+        dlt_payload::<BigEndian>(payload_input, verbose, payload_length, arg_count, msg_type)
     } else {
-        dlt_payload::<LittleEndian>(after_headers, verbose, payload_length, arg_count, msg_type)?
+        dlt_payload::<LittleEndian>(payload_input, verbose, payload_length, arg_count, msg_type)
     };
-    dbg_parsed("payload", after_headers, i, &payload);
+    let (i, payload) = match payload_res {
+        Ok(res) => res,
+        Err(nom::Err::Incomplete(_)) => {
+            return Err(Error(DltParseError::ParsingHickup(
+                "Payload exceeds the declared message length".to_string(),
+            )))
+        }
+        Err(e) => return Err(e),
+    };
+    dbg_parsed("payload", payload_input, i, &payload);
     Ok((
-        i,
+        after_message,
         ParsedMessage::Item(Message {
             storage_header: storage_header_shifted.map(|shs| shs.0),
             header,
